@@ -28,8 +28,9 @@
 EXTENDS Worlds, TLC, FiniteSets, Json
 CONSTANTS K,       \* integration steps explored
           Mode     \* "r1": one step from any grid state (no start-up sequence); "r2": start-up + K steps
-VARIABLES wi, ti, phase, stock, pval, cache, flow, hist, obs, st0   \* st0: the initial stock (before the start-up flush), kept for replay
-vars == <<wi, ti, phase, stock, pval, cache, flow, hist, obs, st0>>
+VARIABLES wi, ti, phase, stock, pval, cache, flow, hist, obs, st0,  \* st0: the initial stock (before the start-up flush), kept for replay
+          raw    \* values of the environment (data) parameters chosen for the current time index, before the parameter pipeline
+vars == <<wi, ti, phase, stock, pval, cache, flow, hist, obs, st0, raw>>
 
 RECURSIVE ProdSeq(_)
 ProdSeq(ss) == IF ss = <<>> THEN {<<>>} ELSE {<<x>> \o t : x \in Head(ss), t \in ProdSeq(Tail(ss))}
@@ -47,6 +48,34 @@ Uniform(total, n) == [r \in 1..n |-> RDiv(total, RInt(n))]
 \* ---------- C05: number of rows of a timed compartment -------------------------------------------
 Rows(w,c) == IF w.kind[c] = "timed" \/ (IsJ(w,c) /\ w.dur[c] # Zero)
              THEN IMax(1, RCeil(RDiv(w.dur[c], w.dt))) ELSE 1
+
+\* ---------- the parameter pipeline inside the engine (C03 / C06): functions of the same-step state ----------------
+\* w.pfn[p] is <<"env">> for a data parameter (value chosen by the environment) or an expression over compartments,
+\* characteristics, parameters with a smaller index (dependencies are evaluated and clipped first) and time;
+\* w.plim[p] = <<lo, hi>> with NoLim (= <<0,0>>, module Worlds) for an absent limit.  Division is the library's safe division (0 / x = 0).
+ClipL(v, lim) == LET a == IF lim[1] = NoLim THEN v ELSE RMax(v, lim[1]) IN IF lim[2] = NoLim THEN a ELSE RMin(a, lim[2])
+CharVal(w, st, k) == LET ch == w.chars[k]
+                         num == RSumSet(ch.parts, [c \in ch.parts |-> RSumSeq(st[c])])
+                     IN IF ch.denom = 0 THEN num
+                        ELSE LET dch == w.chars[ch.denom]  den == RSumSet(dch.parts, [c \in dch.parts |-> RSumSeq(st[c])])
+                             IN IF num = Zero THEN Zero ELSE RDiv(num, den)
+RECURSIVE EvalE(_,_,_,_,_)
+EvalE(w, e, eff, st, t) ==
+   CASE e[1] = "num" -> e[2]
+     [] e[1] = "par" -> eff[e[2]]
+     [] e[1] = "comp" -> RSumSeq(st[e[2]])
+     [] e[1] = "char" -> CharVal(w, st, e[2])
+     [] e[1] = "t" -> t
+     [] OTHER -> LET a == EvalE(w, e[2], eff, st, t)  b == EvalE(w, e[3], eff, st, t) IN
+                 IF e[1] = "add" THEN RAdd(a, b) ELSE IF e[1] = "sub" THEN RSub(a, b) ELSE IF e[1] = "mul" THEN RMul(a, b)
+                 ELSE IF e[1] = "div" THEN (IF a = Zero THEN Zero ELSE RDiv(a, b))
+                 ELSE IF e[1] = "min" THEN RMin(a, b) ELSE RMax(a, b)
+RECURSIVE EffUpTo(_,_,_,_,_)
+EffUpTo(w, rw, st, t, k) == IF k = 0 THEN <<>> ELSE
+   LET prev == EffUpTo(w, rw, st, t, k - 1)
+       v == IF w.pfn[k][1] = "env" THEN rw[k] ELSE EvalE(w, w.pfn[k], prev, st, t)
+   IN Append(prev, ClipL(v, w.plim[k]))
+Eff(w, rw, st, k) == EffUpTo(w, rw, st, RAdd(<<2000, 1>>, RMul(RInt(k), w.dt)), Len(w.units))
 
 \* ---------- Convert: parameter value -> per-step fraction (or amount for a source) ----------------
 Conv(w,pv,st,p) ==
@@ -156,34 +185,37 @@ W == Worlds[wi]
 Init == /\ wi \in 1..Len(Worlds)
         /\ stock \in ProdSeq(Worlds[wi].grid) /\ st0 = stock
         /\ ti = 0 /\ cache = <<>> /\ flow = <<>> /\ hist = <<>> /\ obs = ""
-        /\ IF Mode = "r1" THEN phase = "pars" /\ pval \in ProdSeq(Worlds[wi].dom)
-                          ELSE phase = "built" /\ pval = <<>>
+        /\ IF Mode = "r1" THEN phase = "pars" /\ raw \in ProdSeq(Worlds[wi].dom) /\ pval = Eff(Worlds[wi], raw, stock, 0)
+                          ELSE phase = "built" /\ pval = <<>> /\ raw = <<>>
 
 \* r2 start-up: parameters at index 0, initial flush, parameters again (environment values are data: unchanged)
 UpdatePars0 == /\ phase = "built"
-               /\ pval' \in {pv \in ProdSeq(W.dom) : ~FlushIllPosed(W, pv, stock)}
+               /\ raw' \in {rw \in ProdSeq(W.dom) : ~FlushIllPosed(W, Eff(W, rw, stock, 0), stock)}
+               /\ pval' = Eff(W, raw', stock, 0)
                /\ phase' = "pars0" /\ UNCHANGED <<wi, ti, stock, cache, flow, hist, obs, st0>>
 InitialFlush == /\ phase = "pars0"
                 /\ stock' = Flush(W, pval, stock, 1)
-                /\ phase' = "flushed" /\ UNCHANGED <<wi, ti, pval, cache, flow, hist, obs, st0>>
-UpdatePars0b == /\ phase = "flushed"
-                /\ phase' = "pars" /\ UNCHANGED <<wi, ti, stock, pval, cache, flow, hist, obs, st0>>
+                /\ phase' = "flushed" /\ UNCHANGED <<wi, ti, pval, cache, flow, hist, obs, st0, raw>>
+UpdatePars0b == /\ phase = "flushed"                                  \* functions of the state are re-evaluated on the flushed state; data values stay
+                /\ pval' = Eff(W, raw, stock, 0)
+                /\ phase' = "pars" /\ UNCHANGED <<wi, ti, stock, cache, flow, hist, obs, st0, raw>>
 
 UpdateLinks == /\ phase = "pars"
                /\ LET ca == Cache(W, pval, stock)
                       f == Bal(W, pval, Flow1(W, ca, stock), 1)
                   IN cache' = ca /\ flow' = f
-               /\ phase' = "links" /\ UNCHANGED <<wi, ti, stock, pval, hist, obs, st0>>
+               /\ phase' = "links" /\ UNCHANGED <<wi, ti, stock, pval, hist, obs, st0, raw>>
 UpdateComps == /\ phase = "links" /\ ti < K
                /\ LET nx == [c \in 1..NC(W) |-> StepComp(W, cache, stock, flow, c)]
-                      h2 == Append(hist, [pv |-> pval, st |-> stock, fl |-> flow, ca |-> cache, ill |-> IllPosed(W, pval, flow)])
+                      h2 == Append(hist, [pv |-> pval, rw |-> raw, st |-> stock, fl |-> flow, ca |-> cache, ill |-> IllPosed(W, pval, flow)])
                   IN /\ stock' = nx /\ hist' = h2
                      /\ obs' = IF ti + 1 = K THEN ToJson([w |-> W.id, init |-> st0, hist |-> h2, final |-> nx]) ELSE ""
                /\ ti' = ti + 1
                /\ phase' = IF ti + 1 = K THEN "done" ELSE "comps"
-               /\ UNCHANGED <<wi, pval, cache, flow, st0>>
+               /\ UNCHANGED <<wi, pval, cache, flow, st0, raw>>
 UpdatePars == /\ phase = "comps"
-              /\ pval' \in ProdSeq(W.dom)
+              /\ raw' \in ProdSeq(W.dom)
+              /\ pval' = Eff(W, raw', stock, ti)
               /\ phase' = "pars" /\ UNCHANGED <<wi, ti, stock, cache, flow, hist, obs, st0>>
 Next == UpdatePars0 \/ InitialFlush \/ UpdatePars0b \/ UpdateLinks \/ UpdateComps \/ UpdatePars
 Spec == Init /\ [][Next]_vars
@@ -232,6 +264,10 @@ C04_JSplit == (phase = "links" /\ WellPosed) => \A j \in 1..NC(W) : IsJ(W,j) =>
            IF W.kind[j] = "junction" THEN RMul(Tot(flow[l]), tot) = RMul(inflow, fr[l])
            ELSE IF W.lpar[l] = 0 THEN Tot(flow[l]) = RMul(inflow, RMax(Zero, RSub(One, tot)))
            ELSE Tot(flow[l]) = RDiv(RMul(inflow, fr[l]), RMax(One, tot))
+
+\* C06 ---------------------------------------------------------------------------------------------
+\* every parameter value that drives a flow or feeds a dependent parameter lies inside its limits
+C06_InLimits == pval # <<>> => \A p \in 1..NP(W) : (W.plim[p][1] = NoLim \/ RLe(W.plim[p][1], pval[p])) /\ (W.plim[p][2] = NoLim \/ RLe(pval[p], W.plim[p][2]))
 
 \* C10 ---------------------------------------------------------------------------------------------
 \* restarting from a saved state: the start-up sequence of a new run (parameters, initial flush, parameters, links) applied
